@@ -530,12 +530,14 @@ func keeperMutationRule(c *Ctx, fs []*ssa.Function, rule string) {
 // Explicit panics on block-level paths are discharged by *class*, decided structurally where the
 // panic stands (whatever function it was written or extracted into, lifted through the callers'
 // arguments): the panic must be reachable only on an edge of one of these kinds.
-//   queued-order-found   lookup of an order whose id was read from the queue section failed
-//   queued-order-status  the queued order's status differs from the constant the step expects
-//   setter-error         the order setter failed (it fails only on an invalid status; a constant valid one is stored)
-//   stored-address       a bech32 address taken from a stored order does not parse (validated when the order was raised)
-//   mint-route-error     the mint/lock route returned an error (module permissions are checked by A5; the purchaser signed the order, so it is no blocked module account)
-//   decode-error         a stored value of a section does not decode (every writer of the section marshals the same type: C20)
+//
+//	queued-order-found   lookup of an order whose id was read from the queue section failed
+//	queued-order-status  the queued order's status differs from the constant the step expects
+//	setter-error         the order setter failed (it fails only on an invalid status; a constant valid one is stored)
+//	stored-address       a bech32 address taken from a stored order does not parse (validated when the order was raised)
+//	mint-route-error     the mint/lock route returned an error (module permissions are checked by A5; the purchaser signed the order, so it is no blocked module account)
+//	decode-error         a stored value of a section does not decode (every writer of the section marshals the same type: C20)
+//
 // Panicking API calls keep a reviewed table keyed by function, API and ordinal.
 var blockPanicClasses = []string{"queued-order-found", "queued-order-status", "setter-error", "stored-address", "mint-route-error", "decode-error"}
 
@@ -928,10 +930,11 @@ func blockPanicClass(c *Ctx, f *ssa.Function, p *ssa.Panic, class string) bool {
 // implicitPanics (A10.implicit-panic): run-time panics that no `panic` statement announces, on block-level
 // paths: indexing a slice / string with a computed index, slicing with computed bounds, a type assertion
 // without the comma-ok form, an integer division by a non-constant. Each site must be structurally safe:
-//   * an index that is the induction variable of a `for range` over the same slice (go/ssa shape:
+//   - an index that is the induction variable of a `for range` over the same slice (go/ssa shape:
 //     phi(-1, i+1) + 1 compared with len) or a constant below a literal length;
-//   * an index / bound guarded by a dominating comparison with len of the same slice;
-//   * a divisor guarded by a dominating != 0 / > 0.
+//   - an index / bound guarded by a dominating comparison with len of the same slice;
+//   - a divisor guarded by a dominating != 0 / > 0.
+//
 // Anything else is reported (the chain halts if BeginBlock panics).
 func implicitPanics(c *Ctx, fs []*ssa.Function) {
 	w, r := c.W, c.R
